@@ -4,7 +4,9 @@ Shared model R — the text readers (`loader/OscarLoader.py`, `loader/JetscapeLo
 Two layers.
 * `analyse : String → LineF` computes, from the text of one line, exactly the observations the loaders make
   on it: the substring tests (`'#' in line`, `' out ' in line`, `'sigmaGen' in line`, …) and the token list
-  `line.replace('\n','').split(' ')` (for JETSCAPE after `replace('\t',' ')`).
+  `line.replace('\n','').split(' ')` (for JETSCAPE after `replace('\t',' ')`).  All of it (and `pyInt?`, `isPyFloat`) is
+  defined through the structurally recursive character-list primitives of `Core/Str.lean`, so that the classification
+  lemma (`Lemmas/Classify*.lean`, `C01.C01_classification_holds`) can be proved and the kernel can evaluate them.
 * `readOscar`, `readJetscape : List LineF → Opts → … → Except Err Loaded` reproduce the loaders step by step on
   those observations: format sniffing, `num_events` from the last line, the header scan building
   `(label,count)` rows and footers, the skip/read line arithmetic, the line loop that *classifies by content*
@@ -16,14 +18,21 @@ only through `colsOk` (the column-count check) and, when constructor filters are
 `view : PLine → Flt.Part α` supplied by the caller.  No Mathlib.
 -/
 import SparkxVerif.Core.FilterSkel
+import SparkxVerif.Core.Str
 
 namespace SparkxVerif.Rd
 open SparkxVerif.Flt
 
 /-! ### layer 1: what the loaders observe on a line -/
 
-/-- Python `pat in s` -/
-def hasSub (s pat : String) : Bool := (s.splitOn pat).length > 1
+/-- Python `pat in s` (on the character lists; `Core/Str.lean`) -/
+def hasSub (s pat : String) : Bool := Str.isInfix pat.toList s.toList
+
+/-- Python `s.split(c)` for a one-character separator -/
+def splitCh (c : Char) (s : String) : List String := (Str.splitOnChar c s.toList).map String.ofList
+
+/-- `s.replace('\t', ' ')` -/
+def tabToSp (c : Char) : Char := if c = '\t' then ' ' else c
 
 structure LineF where
   raw : String
@@ -48,7 +57,7 @@ structure LineF where
 deriving Repr
 
 def analyse (s : String) : LineF :=
-  { raw := s, toks := s.splitOn " ", toksTab := (s.replace "\t" " ").splitOn " ",
+  { raw := s, toks := splitCh ' ' s, toksTab := (Str.splitOnChar ' ' (s.toList.map tabToSp)).map String.ofList,
     hasHash := hasSub s "#", hasEvent := hasSub s "event", hasOut := hasSub s "out", hasOutSp := hasSub s " out ",
     hasInSp := hasSub s "in ", hasSpIn := hasSub s " in ", hasStart := hasSub s " start", hasEnd := hasSub s "end",
     hasEndSp := hasSub s " end ", hasSigma := hasSub s "sigmaGen", hasWeight := hasSub s "weight",
@@ -60,10 +69,7 @@ structure FileF where
   trailingNL : Bool
 
 /-- Python `int(tok)` for the tokens the loaders convert (optional sign, digits; surrounding blanks allowed) -/
-def pyInt? (s : String) : Option Int :=
-  let t := s.trimAscii.toString
-  -- `int("+3") == 3` (Lean's `toInt?` knows no leading plus sign)
-  if t.startsWith "+" then (t.drop 1).toString.toNat?.map Int.ofNat else t.toInt?
+def pyInt? (s : String) : Option Int := Str.pyIntL s.toList
 
 /-! ### results -/
 
@@ -250,25 +256,7 @@ def closeEvent (st : LoopSt) (filt : Option EvFilter) (labelBase : Int) : Except
     pure { st with data := [], counts := counts, cut := st.cut + 1 }
 
 /-- does Python `float(tok)` succeed?  (decimal / exponent notation, `inf`, `nan`, optional sign, blanks) -/
-def isPyFloat (s : String) : Bool :=
-  let t := s.trimAscii.toString.toLower
-  let body := if t.startsWith "+" || t.startsWith "-" then (t.drop 1).toString else t
-  if body == "inf" || body == "infinity" || body == "nan" then true else
-  let (mant, ex) := match body.splitOn "e" with
-    | [m] => (m, none)
-    | [m, e] => (m, some e)
-    | _ => ("", some "x")
-  let digits (x : String) : Bool := x.all Char.isDigit
-  let mantOk := match mant.splitOn "." with
-    | [a] => !a.isEmpty && digits a
-    | [a, b] => (!a.isEmpty || !b.isEmpty) && digits a && digits b
-    | _ => false
-  let exOk := match ex with
-    | none => true
-    | some e =>
-      let e' := if e.startsWith "+" || e.startsWith "-" then (e.drop 1).toString else e
-      !e'.isEmpty && digits e'
-  mantOk && exOk
+def isPyFloat (s : String) : Bool := Str.isPyFloatL s.toList
 
 def isPyInt (s : String) : Bool := (pyInt? s).isSome
 
